@@ -160,6 +160,49 @@ def outputs(c):
 
 
 # ------------------------------------------------------------------ property-level predicates
+def derive(A, perm, how):
+    if how == 'index':
+        return A[perm]
+    if how == 'view':
+        return A[perm].view(ff.Basis)
+    B = A.copy()
+    B[...] = A.view(np.ndarray)[perm]
+    return B
+
+
+def derived_basis_predicates(c, o):
+    p = c['p']
+    A = p.basis
+    n = len(A)
+    with warnings.catch_warnings():
+        warnings.simplefilter('ignore')
+        _ = A.four_element_traces                      # make sure the parent's traces are cached
+        rs = np.random.default_rng(int(abs(float(np.abs(o['G']).sum())) * 1e9) % (2 ** 31) + n)
+        perm = rs.permutation(n)
+        if (perm == np.arange(n)).all():
+            perm = np.roll(perm, 1)
+        how = ['index', 'view', 'copy'][int(rs.integers(0, 3))]
+        B = derive(A, perm, how)
+        pB = ff.PulseSequence(list(zip(p.c_opers, p.c_coeffs, p.c_oper_identifiers)),
+                              list(zip(p.n_opers, p.n_coeffs, p.n_oper_identifiers)), p.dt, basis=B)
+        KA = numeric.calculate_cumulant_function(gen.fresh(p), c['S'], c['om'])
+        GB = numeric.calculate_decay_amplitudes(pB, c['S'], c['om'])
+        KB = numeric.calculate_cumulant_function(pB, c['S'], c['om'])
+    out = []
+    ref = KA[..., perm, :][..., :, perm]               # P K_A P^T
+    scale = max(np.abs(ref).max(), np.abs(KB).max(), 1e-300)
+    if np.abs(KB - ref).max() > 1e-9 * scale:
+        out.append(('derived basis', 'c09-derived-basis-stale-traces',
+                    'basis derived (%s) from a used Basis object: K_B != P K_A P^T, max %.3g (scale %.3g)' % (how, np.abs(KB - ref).max(), scale)))
+    if n <= 9:
+        Kf = formula_K(ff.Basis(np.asarray(B.view(np.ndarray)).copy()), GB)
+        if np.abs(KB - Kf).max() > 1e-9 * max(scale, np.abs(Kf).max()):
+            out.append(('derived basis', 'c09-derived-basis-stale-traces',
+                        'basis derived (%s) from a used Basis object: K_B differs from the trace-tensor formula, max %.3g (scale %.3g)'
+                        % (how, np.abs(KB - Kf).max(), scale)))
+    return out
+
+
 def predicates(c, o):
     p, shape = c['p'], c['shape']
     d = p.d
@@ -199,6 +242,11 @@ def predicates(c, o):
         A = o['K'] - o['K1']
         if np.abs(A + np.swapaxes(A, -1, -2)).max() > 1e-10 * max(np.abs(A).max(), scale):
             bad.append(('second order antisymmetric', 'c09-second-order-antisymmetric', 'K(second) - K(first) is not antisymmetric'))
+    # derived basis: the basis object has been USED (four-element traces cached); an object derived from it by indexing /
+    # copying must not serve stale traces: K_B follows the formula and K_B = P K_A P^T for the permutation P
+    if not c['pc']:
+        for sig_det in derived_basis_predicates(c, o):
+            bad.append(sig_det)
     # physicality of the package's own error transfer matrix
     E = o['E']
     Eref = sla.expm(o['Kt'].sum(axis=tuple(range(o['Kt'].ndim - 2))))
